@@ -148,4 +148,54 @@ theorem C05_patch_region_sound (baseGrid refGrid : Region) (px0 py0 pw ph : Nat)
 example : (patchGeom ⟨0, 0, 6, 6⟩ ⟨0, 0, 8, 8⟩ 1 1 3 3 (-1) 4).targetPatch = ⟨0, 4, 2, 2⟩ := by decide
 example : (patchGeom ⟨0, 0, 6, 6⟩ ⟨0, 0, 8, 8⟩ 1 1 3 3 (-1) 4).newX = 2 := by decide
 
+
+/-- `composite` as it was before the repair (commit a89eeeb): the request is padded for filters and
+upsampling before it is handed to `blend()` — and through it to the blending source. -/
+def compositeRegionPadded (c : Cfg) (oriented : Region) : Region :=
+  let fr := (oriented.translate (-c.x0) (-c.y0)).downsample (c.lfLevel * 3)
+  let fr := padLfRegion c fr
+  let fr := padColorRegion c fr
+  let fr := fr.upsample c.upsampling
+  if c.normal then fr.intersection ((Region.withSize c.imgW c.imgH).translate (-c.x0) (-c.y0)) else fr
+
+/--
+**A blend chain never asks its source for more than the source covers.** For two normal frames
+`c` (blended) and `b` (its blending source) of one image and one requested region: every cell of
+the region `composite` hands to `blend()` for `c`, expressed in `b`'s frame coordinates (this is
+`base_frame_region`), lies in the region `composite` covers for `b` under the same request —
+whatever filters, upsampling or crop offsets either frame has, hence for chains of any depth.
+-/
+theorem C05_blend_chain_request_covered (c b : Cfg) (hc : c.normal = true) (hb : b.normal = true)
+    (hcl : c.lfLevel = 0) (hbl : b.lfLevel = 0) (hw : c.imgW = b.imgW) (hh : c.imgH = b.imgH)
+    (oriented : Region) (x y : Int) (h : Mem x y (compositeRegion c oriented)) :
+    Mem (x + c.x0 - b.x0) (y + c.y0 - b.y0) (compositeRegion b oriented) := by
+  unfold compositeRegion at h ⊢
+  simp only [hc, hb, hcl, hbl, if_true, Nat.zero_mul, Region.downsample] at h ⊢
+  rw [mem_intersection, mem_translate, mem_translate] at h ⊢
+  obtain ⟨h1, h2⟩ := h
+  have e1 : x + c.x0 - b.x0 - -b.x0 = x - -c.x0 := by omega
+  have e2 : y + c.y0 - b.y0 - -b.y0 = y - -c.y0 := by omega
+  rw [e1, e2, ← hw, ← hh]
+  exact ⟨h1, h2⟩
+
+/-- The unrepaired region computation does not have that property from the third layer on: three
+full-size layers with Gabor on a 64×64 image, request `(10, 10, 8, 8)`. The top layer pads the
+request once and hands that to the middle layer as ITS request, which pads it again: the bottom
+layer is asked for `(8, 8, 12, 12)` but was rendered for the request padded once,
+`(9, 9, 10, 10)` — cell `(8, 8)` is outside its grid (the assertion / error of `blend()`). -/
+theorem C05_padded_chain_request_not_covered :
+    let c : Cfg := { imgW := 64, imgH := 64, orientation := 1, x0 := 0, y0 := 0, fw := 64, fh := 64, refOnly := false, normal := true, lfLevel := 0, upsampling := 0, ec := [], epfIters := 0, gab := true, ycbcr := false, groupSizeShift := 1 }
+    let r : Region := ⟨10, 10, 8, 8⟩
+    Mem 8 8 (compositeRegionPadded c (compositeRegionPadded c r)) ∧
+    ¬ Mem 8 8 (plumb c false r).colorPadded ∧
+    (∀ x y, Mem x y (compositeRegion c (compositeRegion c r)) → Mem x y (plumb c false r).colorPadded) := by
+  refine ⟨by decide, by decide, ?_⟩
+  intro x y h
+  have e : compositeRegion { imgW := 64, imgH := 64, orientation := 1, x0 := 0, y0 := 0, fw := 64, fh := 64, refOnly := false, normal := true, lfLevel := 0, upsampling := 0, ec := [], epfIters := 0, gab := true, ycbcr := false, groupSizeShift := 1 } (compositeRegion { imgW := 64, imgH := 64, orientation := 1, x0 := 0, y0 := 0, fw := 64, fh := 64, refOnly := false, normal := true, lfLevel := 0, upsampling := 0, ec := [], epfIters := 0, gab := true, ycbcr := false, groupSizeShift := 1 } ⟨10, 10, 8, 8⟩) = ⟨10, 10, 8, 8⟩ := by decide
+  have e2 : (plumb { imgW := 64, imgH := 64, orientation := 1, x0 := 0, y0 := 0, fw := 64, fh := 64, refOnly := false, normal := true, lfLevel := 0, upsampling := 0, ec := [], epfIters := 0, gab := true, ycbcr := false, groupSizeShift := 1 } false ⟨10, 10, 8, 8⟩).colorPadded = ⟨9, 9, 10, 10⟩ := by decide
+  simp only [e, e2] at h ⊢
+  unfold Mem at h ⊢
+  simp only [Region.right, Region.bottom] at h ⊢
+  omega
+
 end Jxl.Region
